@@ -1,14 +1,522 @@
 package symx
 
-// FS is the in-memory file system used by the os/ioutil stubs.
+import (
+	"encoding/json"
+	"fmt"
+	"go/types"
+	"sort"
+	"strings"
+
+	"golang.org/x/tools/go/ssa"
+)
+
+// FS is the in-memory file system behind the os / io/ioutil stubs, with a fault oracle:
+//   budget  - total bytes that may be written; the write that would exceed it is cut short and fails,
+//             and every later write fails (disk full)
+//   crashAt - after this many mutations the disk image is frozen (process death): later mutations are dropped
 type FS struct {
-	files map[string]*fsFile
-	dirs  map[string]bool
-	ops   int
+	files     map[string]*fsFile
+	dirs      map[string]bool
+	open      map[int]*fsHandle // by object id of the *os.File
+	mutations int
+	crashAt   int
+	frozen    bool
+	budget    int
+	written   int
+	failed    bool
+	blobs     map[uint64]*jsonBlob
+	log       []string
 }
 
 type fsFile struct {
 	data []*Term
 }
 
-func newFS() *FS { return &FS{files: map[string]*fsFile{}, dirs: map[string]bool{}} }
+type fsHandle struct {
+	path   string
+	pos    int
+	write  bool
+	closed bool
+}
+
+type jsonBlob struct {
+	kind  string // "strings", "u32s"
+	elems []Value
+	bytes []*Term
+}
+
+func newFS() *FS {
+	return &FS{files: map[string]*fsFile{}, dirs: map[string]bool{}, open: map[int]*fsHandle{}, crashAt: -1, budget: -1, blobs: map[uint64]*jsonBlob{}}
+}
+
+// mutate is called before every mutation of the image; it reports whether the mutation takes effect.
+func (fs *FS) mutate(what string) bool {
+	if fs.frozen {
+		return false
+	}
+	if fs.crashAt >= 0 && fs.mutations >= fs.crashAt {
+		fs.frozen = true
+		return false
+	}
+	fs.mutations++
+	fs.log = append(fs.log, what)
+	return true
+}
+
+func (st *State) fsErr(msg string) IfaceV { return st.opaqueError("fs: " + msg) }
+
+func (st *State) ioEOF() Value {
+	pkg := st.p.Pkgs["io"]
+	if pkg == nil {
+		st.abort(abUnsupported, "package io not loaded")
+	}
+	g := pkg.Var("EOF")
+	return st.loadAt(st.globalObj(g).base(), g.Type().(*types.Pointer).Elem())
+}
+
+func (st *State) fileHandle(v Value, what string) *fsHandle {
+	p := st.constAddr(tw(v), what)
+	if p == 0 {
+		st.fail("nil *os.File in " + what)
+	}
+	id := int(p>>objShift) - 1
+	h := st.fs.open[id]
+	if h == nil {
+		st.fail("invalid *os.File in " + what)
+	}
+	return h
+}
+
+func (st *State) newFile(path string, write bool) *Term {
+	o := st.newObj(8, "alloc", "os.File:"+path)
+	st.fs.open[o.id] = &fsHandle{path: path, write: write}
+	return st.ptrTo(o, 0)
+}
+
+// fsWrite appends data to a file honouring budget; returns bytes written and whether it failed.
+func (st *State) fsWrite(path string, data []*Term, pos *int) (int, bool) {
+	fs := st.fs
+	n := len(data)
+	fail := false
+	if fs.failed {
+		return 0, true
+	}
+	if fs.budget >= 0 && fs.written+n > fs.budget {
+		n = fs.budget - fs.written
+		fail = true
+		fs.failed = true
+	}
+	if n > 0 || !fail {
+		if fs.mutate(fmt.Sprintf("write %s %d", path, n)) {
+			f := fs.files[path]
+			if f == nil {
+				f = &fsFile{}
+				fs.files[path] = f
+			}
+			for len(f.data) < *pos {
+				f.data = append(f.data, st.zero8)
+			}
+			for i := 0; i < n; i++ {
+				if *pos+i < len(f.data) {
+					f.data[*pos+i] = data[i]
+				} else {
+					f.data = append(f.data, data[i])
+				}
+			}
+		}
+	}
+	*pos += n
+	fs.written += n
+	return n, fail
+}
+
+func init() {
+	errRes := func(st *State, e Value) Value { return e }
+	_ = errRes
+	reg("os.MkdirAll", func(st *State, th *Thread, a []Value, _ ssa.Instruction) (Value, bool) {
+		p := st.goString(a[0], "MkdirAll path")
+		if st.fs.mutate("mkdir " + p) {
+			st.fs.dirs[p] = true
+		}
+		return IfaceV{}, true
+	})
+	reg("os.OpenFile", func(st *State, th *Thread, a []Value, _ ssa.Instruction) (Value, bool) {
+		p := st.goString(a[0], "OpenFile path")
+		if st.fs.files[p] == nil {
+			if st.fs.mutate("create " + p) {
+				st.fs.files[p] = &fsFile{}
+			}
+		}
+		return Agg{st.newFile(p, true), IfaceV{}}, true
+	})
+	reg("os.Open", func(st *State, th *Thread, a []Value, _ ssa.Instruction) (Value, bool) {
+		p := st.goString(a[0], "Open path")
+		if st.fs.files[p] == nil {
+			return Agg{st.zero64, st.fsErr("ENOENT " + p)}, true
+		}
+		return Agg{st.newFile(p, false), IfaceV{}}, true
+	})
+	reg("(*os.File).Write", func(st *State, th *Thread, a []Value, _ ssa.Instruction) (Value, bool) {
+		h := st.fileHandle(a[0], "File.Write")
+		if h.closed {
+			return Agg{st.zero64, st.fsErr("file already closed")}, true
+		}
+		s := a[1].(SliceV)
+		data := st.byteTerms(s.Ptr, s.Len, "File.Write data")
+		n, fail := st.fsWrite(h.path, data, &h.pos)
+		if fail {
+			return Agg{st.c.Const(64, uint64(n)), st.fsErr("ENOSPC")}, true
+		}
+		return Agg{st.c.Const(64, uint64(n)), IfaceV{}}, true
+	})
+	reg("(*os.File).Read", func(st *State, th *Thread, a []Value, _ ssa.Instruction) (Value, bool) {
+		h := st.fileHandle(a[0], "File.Read")
+		if h.closed {
+			return Agg{st.zero64, st.fsErr("file already closed")}, true
+		}
+		s := a[1].(SliceV)
+		ln := int(st.concretize(s.Len, "Read buffer length"))
+		f := st.fs.files[h.path]
+		var data []*Term
+		if f != nil {
+			data = f.data
+		}
+		if ln == 0 {
+			return Agg{st.zero64, IfaceV{}}, true
+		}
+		if h.pos >= len(data) {
+			return Agg{st.zero64, st.ioEOF()}, true
+		}
+		n := len(data) - h.pos
+		if n > ln {
+			n = ln
+		}
+		base := st.constAddr(s.Ptr, "Read buffer")
+		o, off := st.resolve(base, n, "File.Read buffer")
+		o = st.wobj(o)
+		o.ensure()
+		for i := 0; i < n; i++ {
+			b := data[h.pos+i]
+			o.setByte(off+i, b)
+		}
+		h.pos += n
+		return Agg{st.c.Const(64, uint64(n)), IfaceV{}}, true
+	})
+	reg("(*os.File).Close", func(st *State, th *Thread, a []Value, _ ssa.Instruction) (Value, bool) {
+		h := st.fileHandle(a[0], "File.Close")
+		if h.closed {
+			return st.fsErr("file already closed"), true
+		}
+		h.closed = true
+		return IfaceV{}, true
+	})
+	readFile := func(st *State, th *Thread, a []Value, _ ssa.Instruction) (Value, bool) {
+		p := st.goString(a[0], "ReadFile path")
+		f := st.fs.files[p]
+		if f == nil {
+			return Agg{st.zero(types.NewSlice(types.Typ[types.Uint8])), st.notExistErr(p)}, true
+		}
+		o := st.newObj(len(f.data), "alloc", "ReadFile "+p)
+		o.ensure()
+		for i, b := range f.data {
+			if !(b.IsConst() && b.C == 0) {
+				o.setByte(i, b)
+			}
+		}
+		n := st.c.Const(64, uint64(len(f.data)))
+		return Agg{SliceV{st.ptrTo(o, 0), n, n}, IfaceV{}}, true
+	}
+	reg("io/ioutil.ReadFile", readFile)
+	reg("os.ReadFile", readFile)
+	writeFile := func(st *State, th *Thread, a []Value, _ ssa.Instruction) (Value, bool) {
+		p := st.goString(a[0], "WriteFile path")
+		s := a[1].(SliceV)
+		data := st.byteTerms(s.Ptr, s.Len, "WriteFile data")
+		if st.fs.mutate("create " + p) {
+			st.fs.files[p] = &fsFile{}
+		}
+		pos := 0
+		_, fail := st.fsWrite(p, data, &pos)
+		if fail {
+			return st.fsErr("ENOSPC"), true
+		}
+		return IfaceV{}, true
+	}
+	reg("io/ioutil.WriteFile", writeFile)
+	reg("os.WriteFile", writeFile)
+	reg("os.IsNotExist", func(st *State, th *Thread, a []Value, _ ssa.Instruction) (Value, bool) {
+		e := a[0].(IfaceV)
+		if e.T == nil {
+			return st.c.False, true
+		}
+		if t, ok := e.V.(*Term); ok && t.IsConst() {
+			return st.c.Bool(strings.Contains(st.errMsgs[t.C], "ENOENT")), true
+		}
+		return st.c.False, true
+	})
+
+	// ---- encoding/json for the three shapes the backup manifest uses
+	reg("encoding/json.Marshal", func(st *State, th *Thread, a []Value, _ ssa.Instruction) (Value, bool) {
+		iv := a[0].(IfaceV)
+		return Agg{st.jsonMarshal(iv), IfaceV{}}, true
+	})
+	reg("encoding/json.Unmarshal", func(st *State, th *Thread, a []Value, _ ssa.Instruction) (Value, bool) {
+		data := a[0].(SliceV)
+		target := a[1].(IfaceV)
+		return st.jsonUnmarshal(data, target), true
+	})
+
+	// ---- harness access to the file system and the fault oracle
+	h := harnessIntrinsics
+	h["vFSDir"] = func(st *State, th *Thread, a []Value, _ ssa.Instruction) (Value, bool) {
+		return st.constString("/vfs"), true
+	}
+	h["vFSBudget"] = func(st *State, th *Thread, a []Value, _ ssa.Instruction) (Value, bool) {
+		st.fs.budget = int(int64(st.concretize(tw(a[0]), "budget")))
+		st.fs.written = 0
+		st.fs.failed = false
+		return nil, true
+	}
+	h["vFSCrashAt"] = func(st *State, th *Thread, a []Value, _ ssa.Instruction) (Value, bool) {
+		st.fs.crashAt = int(int64(st.concretize(tw(a[0]), "crash index")))
+		st.fs.mutations = 0
+		st.fs.frozen = false
+		return nil, true
+	}
+	h["vFSHeal"] = func(st *State, th *Thread, a []Value, _ ssa.Instruction) (Value, bool) {
+		st.fs.budget, st.fs.failed, st.fs.crashAt, st.fs.frozen = -1, false, -1, false
+		for _, hd := range st.fs.open {
+			hd.closed = true
+		}
+		return nil, true
+	}
+	h["vFSMutations"] = func(st *State, th *Thread, a []Value, _ ssa.Instruction) (Value, bool) {
+		return st.c.Const(64, uint64(st.fs.mutations)), true
+	}
+	h["vFSWritten"] = func(st *State, th *Thread, a []Value, _ ssa.Instruction) (Value, bool) {
+		return st.c.Const(64, uint64(st.fs.written)), true
+	}
+	h["vFSFrozen"] = func(st *State, th *Thread, a []Value, _ ssa.Instruction) (Value, bool) {
+		return st.c.Bool(st.fs.frozen), true
+	}
+	h["vFSNumFiles"] = func(st *State, th *Thread, a []Value, _ ssa.Instruction) (Value, bool) {
+		return st.c.Const(64, uint64(len(st.fs.files))), true
+	}
+	h["vFSFileName"] = func(st *State, th *Thread, a []Value, _ ssa.Instruction) (Value, bool) {
+		i := int(st.concretize(tw(a[0]), "file index"))
+		names := st.fs.names()
+		if i < 0 || i >= len(names) {
+			return st.constString(""), true
+		}
+		return st.constString(names[i]), true
+	}
+	h["vFSSize"] = func(st *State, th *Thread, a []Value, _ ssa.Instruction) (Value, bool) {
+		f := st.fs.files[st.goString(a[0], "path")]
+		if f == nil {
+			return st.c.Const(64, ^uint64(0)), true
+		}
+		return st.c.Const(64, uint64(len(f.data))), true
+	}
+	h["vFSRemove"] = func(st *State, th *Thread, a []Value, _ ssa.Instruction) (Value, bool) {
+		delete(st.fs.files, st.goString(a[0], "path"))
+		return nil, true
+	}
+	h["vFSTruncate"] = func(st *State, th *Thread, a []Value, _ ssa.Instruction) (Value, bool) {
+		f := st.fs.files[st.goString(a[0], "path")]
+		n := int(st.concretize(tw(a[1]), "truncate length"))
+		if f != nil && n >= 0 && n < len(f.data) {
+			f.data = append([]*Term(nil), f.data[:n]...)
+		}
+		return nil, true
+	}
+	h["vFSSetByte"] = func(st *State, th *Thread, a []Value, _ ssa.Instruction) (Value, bool) {
+		f := st.fs.files[st.goString(a[0], "path")]
+		off := int(st.concretize(tw(a[1]), "byte offset"))
+		if f != nil && off >= 0 && off < len(f.data) {
+			f.data = append([]*Term(nil), f.data...)
+			f.data[off] = tw(a[2])
+		}
+		return nil, true
+	}
+	h["vFSGetByte"] = func(st *State, th *Thread, a []Value, _ ssa.Instruction) (Value, bool) {
+		f := st.fs.files[st.goString(a[0], "path")]
+		off := int(st.concretize(tw(a[1]), "byte offset"))
+		if f != nil && off >= 0 && off < len(f.data) {
+			return f.data[off], true
+		}
+		return st.zero8, true
+	}
+}
+
+func (fs *FS) names() []string {
+	var ns []string
+	for n := range fs.files {
+		ns = append(ns, n)
+	}
+	sort.Strings(ns)
+	return ns
+}
+
+func (st *State) notExistErr(p string) IfaceV { return st.fsErr("ENOENT " + p) }
+
+// ---- JSON
+
+func (st *State) sliceElems(s SliceV, ET types.Type, what string) []Value {
+	n := int(st.concretize(s.Len, what+" length"))
+	out := make([]Value, n)
+	if n == 0 {
+		return out
+	}
+	base := st.constAddr(s.Ptr, what)
+	es := uint64(sizeof(ET))
+	for i := 0; i < n; i++ {
+		out[i] = st.loadAt(base+uint64(i)*es, ET)
+	}
+	return out
+}
+
+func (st *State) makeSliceOf(ET types.Type, elems []Value, label string) SliceV {
+	es := sizeof(ET)
+	o := st.newObj(len(elems)*es, "alloc", label)
+	for i, e := range elems {
+		st.storeAt(o.base()+uint64(i*es), ET, e)
+	}
+	n := st.c.Const(64, uint64(len(elems)))
+	return SliceV{st.ptrTo(o, 0), n, n}
+}
+
+func (st *State) jsonMarshal(iv IfaceV) Value {
+	switch T := iv.T.Underlying().(type) {
+	case *types.Slice:
+		elems := st.sliceElems(iv.V.(SliceV), T.Elem(), "json.Marshal slice")
+		eb, _ := T.Elem().Underlying().(*types.Basic)
+		if eb != nil && eb.Info()&types.IsString != 0 {
+			ss := make([]string, len(elems))
+			for i, e := range elems {
+				ss[i] = st.goString(e, "json.Marshal string")
+			}
+			if ss == nil {
+				ss = []string{}
+			}
+			b, _ := json.Marshal(ss)
+			return st.newBytes(b, "json")
+		}
+		if eb != nil && eb.Kind() == types.Uint32 {
+			conc := true
+			vals := make([]uint32, len(elems))
+			for i, e := range elems {
+				t := e.(*Term)
+				if !t.IsConst() {
+					conc = false
+					break
+				}
+				vals[i] = uint32(t.C)
+			}
+			if conc {
+				b, _ := json.Marshal(vals)
+				return st.newBytes(b, "json")
+			}
+			// symbolic checksums: a structured token (kept exact by congruence, not rendered as text)
+			id := uint64(len(st.fs.blobs) + 1)
+			txt := []byte(fmt.Sprintf("[\"verif-json-blob\",%d]", id))
+			s := st.newBytes(txt, "json-blob")
+			st.fs.blobs[id] = &jsonBlob{kind: "u32s", elems: elems, bytes: st.byteTerms(s.Ptr, s.Len, "blob")}
+			return s
+		}
+	case *types.Map:
+		m := iv.V.(*MapObj)
+		gm := map[string]interface{}{}
+		for i, k := range m.Keys {
+			v := m.Vals[i].(IfaceV)
+			gm[st.goString(k, "json map key")] = st.goValue(v)
+		}
+		b, _ := json.Marshal(gm)
+		return st.newBytes(b, "json")
+	}
+	st.abort(abUnsupported, "json.Marshal of "+iv.T.String())
+	return nil
+}
+
+func (st *State) jsonUnmarshal(data SliceV, target IfaceV) Value {
+	pt, ok := target.T.Underlying().(*types.Pointer)
+	if !ok {
+		return st.fsErr("json: Unmarshal(non-pointer)")
+	}
+	addr := st.constAddr(tw(target.V), "json.Unmarshal target")
+	raw, conc := st.concreteBytes(data.Ptr, data.Len, "json.Unmarshal data")
+	if !conc {
+		st.abort(abUnsupported, "json.Unmarshal of symbolic bytes")
+	}
+	// structured token?
+	var tok []interface{}
+	if json.Unmarshal(raw, &tok) == nil && len(tok) == 2 && tok[0] == "verif-json-blob" {
+		id := uint64(tok[1].(float64))
+		if bl := st.fs.blobs[id]; bl != nil {
+			if sl, ok := pt.Elem().Underlying().(*types.Slice); ok {
+				st.storeAt(addr, pt.Elem(), st.makeSliceOf(sl.Elem(), bl.elems, "json slice"))
+				return IfaceV{}
+			}
+		}
+	}
+	switch T := pt.Elem().Underlying().(type) {
+	case *types.Slice:
+		eb, _ := T.Elem().Underlying().(*types.Basic)
+		if eb != nil && eb.Info()&types.IsString != 0 {
+			var ss []string
+			err := json.Unmarshal(raw, &ss)
+			if ss != nil {
+				elems := make([]Value, len(ss))
+				for i, s := range ss {
+					elems[i] = st.constString(s)
+				}
+				st.storeAt(addr, pt.Elem(), st.makeSliceOf(T.Elem(), elems, "json []string"))
+			}
+			if err != nil {
+				return st.fsErr("json: " + err.Error())
+			}
+			return IfaceV{}
+		}
+		if eb != nil && eb.Kind() == types.Uint32 {
+			// json.Unmarshal appends into / reuses the existing slice; model the common case: the result replaces it
+			cur := st.loadAt(addr, pt.Elem()).(SliceV)
+			curN := int(st.concretize(cur.Len, "json target len"))
+			var vs []uint32
+			err := json.Unmarshal(raw, &vs)
+			if vs != nil {
+				elems := make([]Value, len(vs))
+				for i, v := range vs {
+					elems[i] = st.c.Const(32, uint64(v))
+				}
+				_ = curN
+				st.storeAt(addr, pt.Elem(), st.makeSliceOf(T.Elem(), elems, "json []uint32"))
+			}
+			if err != nil {
+				return st.fsErr("json: " + err.Error())
+			}
+			return IfaceV{}
+		}
+	case *types.Map:
+		gm := map[string]int{}
+		err := json.Unmarshal(raw, &gm)
+		m := st.loadAt(addr, pt.Elem()).(*MapObj)
+		if m == nil {
+			m = &MapObj{KT: T.Key(), VT: T.Elem()}
+			st.handleFor(m)
+			st.storeAt(addr, pt.Elem(), m)
+		}
+		ks := make([]string, 0, len(gm))
+		for k := range gm {
+			ks = append(ks, k)
+		}
+		sort.Strings(ks)
+		for _, k := range ks {
+			st.mapUpdate(m, st.constString(k), st.c.Const(64, uint64(gm[k])))
+		}
+		if err != nil {
+			return st.fsErr("json: " + err.Error())
+		}
+		return IfaceV{}
+	}
+	st.abort(abUnsupported, "json.Unmarshal into "+target.T.String())
+	return nil
+}
